@@ -331,7 +331,9 @@ def unit_histories(ctx):
             if C.snap(pre) != snap0:
                 ctx.fail(f"{cls}/copy-aliases-original", "in-place change of the copy reached the original", instance=inst)
                 return None
-            return _call(pre, kind, ev, "copy")
+            nxt = _call(pre, kind, ev, "copy")
+            ctx.observe(_canon(nxt))
+            return nxt
         # in place (form 'in' or 'mesh-in')
         pre2 = build(hist)
         res_i = _call(pre2, kind, ev, form)
@@ -349,6 +351,7 @@ def unit_histories(ctx):
             d = C.approx_equal_geom(res_i, res_c, 2 * step_model.err)
             if d:
                 ctx.fail(f"{cls}/inplace-differs-from-copy", d, instance=inst)
+        ctx.observe(_canon(res_i))
         return res_i if ok else None
 
     def enabled(obj, hist):
